@@ -22,7 +22,7 @@ type c12Case struct {
 var (
 	c12A = CfgLit{Origins: []string{"https://a.example", "https://*.a.example:*"}, Methods: []string{"PUT", "PATCH"}, RequestHeaders: []string{"X-A", "X-B"}, ResponseHeaders: []string{"X-R", "X-S"}, MaxAge: 30}
 	c12B = CfgLit{Origins: []string{"*"}, Methods: []string{"*"}, RequestHeaders: []string{"*", "Authorization"}, ResponseHeaders: []string{"*"}, MaxAge: -1, Status: 200}
-	c12C = CfgLit{Origins: []string{"http://c.example:8080", "https://d.example"}, Credentialed: true, TolInsecure: true, Methods: []string{"*"}, RequestHeaders: []string{"*"}, ResponseHeaders: []string{"X-T"}, PNA: true}
+	c12C = CfgLit{Origins: []string{"http://c.example:8080", "https://d.example"}, Credentialed: true, TolInsecure: true, Methods: []string{"PUT", "DELETE"}, RequestHeaders: []string{"X-A", "X-C"}, ResponseHeaders: []string{"X-T"}, PNA: true}
 )
 
 func scribbleSlice(s []string) {
@@ -38,15 +38,25 @@ func scribbleHeader(h http.Header) {
 	}
 }
 
+// scribbleConfig overwrites every element (up to capacity) of every list of c with a value that would mean
+// something if the middleware still looked at the caller's slices: an attacker's origin, method and header names.
 func scribbleConfig(c *cors.Config) {
 	if c == nil {
 		return
 	}
-	scribbleSlice(c.Origins)
-	scribbleSlice(c.Methods)
-	scribbleSlice(c.RequestHeaders)
-	scribbleSlice(c.ResponseHeaders)
+	fill := func(s []string, v string) {
+		s = s[:cap(s)]
+		for i := range s {
+			s[i] = v
+		}
+	}
+	fill(c.Origins, evilOrigin)
+	fill(c.Methods, "EVIL")
+	fill(c.RequestHeaders, "x-evil")
+	fill(c.ResponseHeaders, "x-evil-r")
 }
+
+const evilOrigin = "https://evil.example"
 
 // c12Requests: the kinds of request the operations serve.
 func c12Requests() []vlib.Req {
@@ -70,6 +80,12 @@ func c12Probes() []vlib.Req {
 		vlib.Req{Method: "OPTIONS", Hdr: map[string][]string{"Origin": {"https://a.example"}, "Access-Control-Request-Method": {"GET"}, "Access-Control-Request-Headers": {"x-b,x-a"}}},
 		vlib.Req{Method: "GET", Hdr: map[string][]string{"Origin": {"https://x.a.example"}}},
 		vlib.Req{Method: "OPTIONS", Hdr: map[string][]string{"Origin": {"http://c.example:8080"}, "Access-Control-Request-Method": {"GET"}, "Access-Control-Request-Private-Network": {"true"}}},
+		// what a scribbled Config would grant if it were still consulted
+		vlib.Req{Method: "GET", Hdr: map[string][]string{"Origin": {evilOrigin}}},
+		vlib.Req{Method: "OPTIONS", Hdr: map[string][]string{"Origin": {evilOrigin}, "Access-Control-Request-Method": {"PUT"}}},
+		vlib.Req{Method: "OPTIONS", Hdr: map[string][]string{"Origin": {"https://a.example"}, "Access-Control-Request-Method": {"EVIL"}}},
+		vlib.Req{Method: "OPTIONS", Hdr: map[string][]string{"Origin": {"https://a.example"}, "Access-Control-Request-Method": {"PUT"}, "Access-Control-Request-Headers": {"x-evil"}}},
+		vlib.Req{Method: "OPTIONS", Hdr: map[string][]string{"Origin": {"https://d.example"}, "Access-Control-Request-Method": {"EVIL"}, "Access-Control-Request-Headers": {"x-evil"}}},
 	)
 	return p
 }
@@ -137,11 +153,14 @@ func c12Ops() []string {
 
 // c12ReducedOps: the operations that can plausibly interact (adversarial ones on every middleware, serving
 // of two request kinds), used for the longest histories.
-func c12ReducedOps() []string {
+func c12ReducedOps(thorough bool) []string {
 	var ops []string
 	for mi := 0; mi < 3; mi++ {
-		ops = append(ops, fmt.Sprintf("serve:m%d:r2:scribble", mi), fmt.Sprintf("serve:m%d:r7:scribble-preset", mi), fmt.Sprintf("serve:m%d:r1:scribble", mi),
-			fmt.Sprintf("scribble-input:m%d", mi), fmt.Sprintf("config-scribble:m%d", mi), fmt.Sprintf("reconfigure-scribble:m%d", mi), fmt.Sprintf("roundtrip-scribble:m%d", mi))
+		ops = append(ops, fmt.Sprintf("serve:m%d:r2:scribble", mi), fmt.Sprintf("serve:m%d:r1:scribble", mi),
+			fmt.Sprintf("scribble-input:m%d", mi), fmt.Sprintf("config-scribble:m%d", mi), fmt.Sprintf("reconfigure-scribble:m%d", mi))
+		if thorough {
+			ops = append(ops, fmt.Sprintf("serve:m%d:r7:scribble-preset", mi), fmt.Sprintf("roundtrip-scribble:m%d", mi))
+		}
 	}
 	return ops
 }
@@ -227,7 +246,7 @@ func checkC12(c *vlib.Ctx) (string, string) {
 	if ck.Replay() {
 		return levelMC, rule
 	}
-	full, red := c12Ops(), c12ReducedOps()
+	full, red := c12Ops(), c12ReducedOps(c.Thorough())
 	type pass struct {
 		ops []string
 		n   int
